@@ -725,7 +725,7 @@ func (vc *VC) oblQuery(o *Obl) string {
 			}
 			if len(t.Args) > 0 && (t.Op == "bvadd" || t.Op == "bvsub" || t.Op == "+" || t.Op == "-") && (t.S.K == KInt || t.S.K == KBV) && mentions(t) {
 				k := t.String()
-				if !seen[k] && len(extra) < 14 && len(k) < 400 {
+				if !seen[k] && len(extra) < 14 && len(k) < 3000 {
 					seen[k] = true
 					extra = append(extra, t)
 				}
@@ -733,7 +733,7 @@ func (vc *VC) oblQuery(o *Obl) string {
 			// word indices derived from bit indices: d = x/2^k, and its neighbours d+1, d-1
 			if len(t.Args) == 2 && (t.Op == "bvsdiv" || t.Op == "bvudiv" || t.Op == "div") && (t.S.K == KInt || t.S.K == KBV) && mentions(t) {
 				k := t.String()
-				if !seen[k] && len(extra) < 14 && len(k) < 400 {
+				if !seen[k] && len(extra) < 14 && len(k) < 3000 {
 					seen[k] = true
 					extra = append(extra, t)
 					var one *Term
